@@ -668,6 +668,11 @@ func isRedactableFieldPatternInArray(arr []any) bool {
 }
 
 func redactArrayValuesWithKey(parentKey string, arr []any, redactFieldNames bool, isSearchStage bool, isSelectivelyRedactable bool, keyPath []string) []any {
+	if !isSelectivelyRedactable && reMatchesAnyKeyInPath(&keyPath, redactedFieldsRegexp) {
+		// selective mode: a field name on the path down to this array matches, so its
+		// elements ($in / $nin / $all / $each members, array-valued fields) are redacted too
+		isSelectivelyRedactable = true
+	}
 	for i, item := range arr {
 		switch itemTyped := item.(type) {
 		case *orderedmap.OrderedMap[string, any]:
